@@ -420,3 +420,290 @@ def c_conv(g):
 def c_calc(rng):
     return call('calculate', g_simple(rng, frac=False), rng.randint(2, 6),
                 prev_gains=g_gains(rng, hi=3), **({'max_seats': g_caps(rng)} if rng.random() < 0.2 else {}))
+
+
+# ------------------------------------------------------------------------------------------------
+# targets: every public evaluator / converter / validator class (constructed with default-ish arguments) and the
+# module-level singletons.  `make` builds a FRESH instance; `shared` (optional) returns the object to be used as
+# the shared instance (module singletons).  `gen(rng)` produces one call.  `seed`: the component is seeded random
+# (must repeat); `random`: unseeded / order-based by documentation — excluded from `history_dependent` only.
+
+def _targets():
+    import votelib.candidate as vcand
+    import votelib.vote as vvote
+    import votelib.convert as vconv
+    import votelib.evaluate.core as vcore
+    import votelib.evaluate.proportional as vprop
+    import votelib.evaluate.sequential as vseq
+    import votelib.evaluate.approval as vapp
+    import votelib.evaluate.cardinal as vcard
+    import votelib.evaluate.condorcet as vcond
+    import votelib.evaluate.auxiliary as vaux
+    import votelib.evaluate.openlist as vopen
+    import votelib.evaluate.threshold as vthr
+    import votelib.component.transfer as vtrans
+    import votelib.component.rankscore as vrs
+    Tt = {}
+
+    def add(name, make, gen, cls=None, **kw):
+        assert name not in Tt, name
+        e = {'name': name, 'make': make, 'gen': gen}
+        e.update(kw)
+        probe = make()
+        e['cls'] = cls or type(probe)
+        Tt[name] = e
+
+    HA = vprop.HighestAverages
+    # --- proportional distributors
+    add('HighestAverages', lambda: HA(), c_eval_simple_dist)
+    add('HighestAverages:sl', lambda: HA('sainte_lague'), c_eval_simple_dist)
+    add('LargestRemainder', lambda: vprop.LargestRemainder('hare'), c_eval_simple_dist)
+    add('LargestRemainder:droop', lambda: vprop.LargestRemainder('droop'), c_eval_simple_dist)
+    add('QuotaDistributor', lambda: vprop.QuotaDistributor(), c_eval_simple_dist)
+    add('QuotaDistributor:sub', lambda: vprop.QuotaDistributor('hare', on_overaward='subtract'), c_eval_simple_dist)
+    add('PureProportionality', lambda: vprop.PureProportionality(), c_eval_simple_dist)
+    add('VotesPerSeat', lambda: vprop.VotesPerSeat(3), c_eval_simple_seatless_dist)
+    add('BiproportionalEvaluator', lambda: vprop.BiproportionalEvaluator('sainte_lague'),
+        lambda rng: call('evaluate', _g_biprop(rng), rng.randint(2, 6)))
+    # --- core wrappers
+    add('Plurality', lambda: vcore.Plurality(), c_eval_simple_sel)
+    add('MultistageDistributor', lambda: vcore.MultistageDistributor([HA(), vprop.LargestRemainder('hare')]),
+        c_eval_simple_dist)
+    add('MultistageDistributor:depth2',
+        lambda: vcore.MultistageDistributor([vcore.ByConstituency(HA()), vcore.ByConstituency(HA('sainte_lague'))], depth=2),
+        c_eval_const_dist)
+    add('UnusedVotesDistributor',
+        lambda: vcore.UnusedVotesDistributor([vprop.QuotaDistributor('hare'), HA()]),
+        lambda rng: call('evaluate', g_simple(rng, frac=False), g_seats(rng, 4),
+                         **({'prev_gains': g_gains(rng)} if rng.random() < 0.5 else {})))
+    add('UnusedVotesDistributor:depth2',
+        lambda: vcore.UnusedVotesDistributor([vcore.ByConstituency(vprop.QuotaDistributor('hare')),
+                                              vcore.ByConstituency(HA())], quota_functions=['hare'], depth=2),
+        lambda rng: call('evaluate', g_const(rng, lambda r: g_simple(r, frac=False)), g_seats(rng, 3),
+                         **({'prev_gains': g_nested_gains(rng)} if rng.random() < 0.6 else {})))
+    add('AdjustedSeatCount', lambda: vcore.AdjustedSeatCount(vcore.AllowOverhang(HA()), HA()),
+        lambda rng: call('evaluate', g_simple(rng, frac=False), rng.randint(2, 6), prev_gains=g_gains(rng, hi=3),
+                         **({'max_seats': g_caps(rng)} if rng.random() < 0.2 else {})))
+    add('AdjustedSeatCount:level', lambda: vcore.AdjustedSeatCount(vcore.LevelOverhang(HA()), HA()),
+        lambda rng: call('evaluate', g_simple(rng, frac=False), rng.randint(2, 6), prev_gains=g_gains(rng, hi=3)))
+    add('AllowOverhang', lambda: vcore.AllowOverhang(HA()), c_calc)
+    add('LevelOverhang', lambda: vcore.LevelOverhang(HA()), c_calc)
+    add('LevelOverhangByConstituency', lambda: vcore.LevelOverhangByConstituency(vcore.ByConstituency(HA()), HA()),
+        lambda rng: call('calculate', g_const(rng, lambda r: g_simple(r, frac=False)), rng.randint(2, 5),
+                         prev_gains=g_nested_gains(rng)))
+    add('SeatCountCalculator', lambda: vcore.SeatCountCalculator(), c_calc)
+    add('PostConverted', lambda: vcore.PostConverted(vcore.Plurality(), vconv.SelectionToDistribution()), c_eval_simple_sel)
+    add('PreConverted', lambda: vcore.PreConverted(vconv.RankedToFirstPreference(), vcore.Plurality()), c_eval_ranked_noshared)
+    add('PreConverted:borda', lambda: vcore.PreConverted(vconv.RankedToPositionalVotes(vrs.Borda()), vcore.Plurality()),
+        c_eval_ranked_n)
+    add('Conditioned', lambda: vcore.Conditioned(vthr.RelativeThreshold(Fraction(1, 10)), HA()), c_eval_simple_dist)
+    add('Conditioned:prevgain',
+        lambda: vcore.Conditioned(vthr.AlternativeThresholds([vthr.RelativeThreshold(Fraction(1, 5)),
+                                                              vthr.PreviousGainThreshold(vthr.AbsoluteThreshold(1))]), HA()),
+        c_eval_simple_dist)
+    add('Conditioned:depth2',
+        lambda: vcore.Conditioned(vthr.RelativeThreshold(Fraction(1, 10)), vcore.ByConstituency(HA()), depth=2),
+        c_eval_const_dist)
+    add('ByConstituency', lambda: vcore.ByConstituency(HA()), c_eval_const_dist_dictseats)
+    add('ByConstituency:apportioned', lambda: vcore.ByConstituency(HA(), apportioner=vprop.LargestRemainder('hare'),
+                                                                  preselector=vthr.RelativeThreshold(Fraction(1, 20))),
+        c_eval_const_dist)
+    add('ByConstituency:selector', lambda: vcore.ByConstituency(vcore.Plurality(), apportioner=1),
+        lambda rng: call('evaluate', g_const(rng, lambda r: g_simple(r, frac=False))))
+    add('ByParty', lambda: vcore.ByParty(HA()), lambda rng: call('evaluate', g_const(rng, lambda r: g_simple(r, frac=False)), g_seats(rng, 4),
+                                                                 **kw_prev_max(rng, {}, nested=True, p=0.3)))
+    add('ByParty:alloc', lambda: vcore.ByParty(HA(), vprop.LargestRemainder('hare')),
+        lambda rng: call('evaluate', g_const(rng, lambda r: g_simple(r, frac=False)), g_seats(rng, 4)))
+    add('PreApportioned', lambda: vcore.PreApportioned(vcore.ByConstituency(HA()), vprop.LargestRemainder('hare')),
+        c_eval_const_dist)
+    add('PreApportioned:int', lambda: vcore.PreApportioned(vcore.ByConstituency(HA()), 2),
+        lambda rng: call('evaluate', g_const(rng, lambda r: g_simple(r, frac=False)), **kw_prev_max(rng, {}, nested=True)))
+    add('RemovedApportionment', lambda: vcore.RemovedApportionment(vcore.ByConstituency(HA(), apportioner=2)),
+        lambda rng: call('evaluate', g_const(rng, lambda r: g_simple(r, frac=False)),
+                         rng.choice([None, D([(d, 1) for d in DN]), 2]), **kw_prev_max(rng, {}, nested=True)))
+    add('FixedSeatCount', lambda: vcore.FixedSeatCount(vcore.Plurality(), 2), c_eval_simple_seatless)
+    add('FixedSeatCount:dist', lambda: vcore.FixedSeatCount(HA(), 3), c_eval_simple_seatless_dist)
+    add('TieBreaking', lambda: vcore.TieBreaking(vcore.Plurality(), vaux.InputOrderSelector()), c_eval_simple_sel)
+    add('TieBreaking:sortitor', lambda: vcore.TieBreaking(vcore.Plurality(), vaux.Sortitor(seed=11)), c_eval_simple_sel, seed=11)
+    add('PartyListEvaluator', lambda: vcore.PartyListEvaluator(HA()), _c_partylist_closed)
+    add('PartyListEvaluator:open', lambda: vcore.PartyListEvaluator(HA(), vopen.ThresholdOpenList(jump_fraction=Fraction(1, 10))),
+        _c_partylist_open)
+    add('UnknownEvaluator', lambda: vcore.UnknownEvaluator(), c_eval_simple_sel)
+    # --- thresholds / open lists
+    add('AbsoluteThreshold', lambda: vthr.AbsoluteThreshold(3), c_eval_simple_seatless)
+    add('RelativeThreshold', lambda: vthr.RelativeThreshold(Fraction(1, 5)), c_eval_simple_seatless)
+    add('AlternativeThresholds',
+        lambda: vthr.AlternativeThresholds([vthr.AbsoluteThreshold(4), vthr.PreviousGainThreshold(vthr.AbsoluteThreshold(1))]),
+        lambda rng: call('evaluate', g_simple(rng), **({'prev_gains': g_gains(rng)} if rng.random() < 0.5 else {})))
+    add('PreviousGainThreshold', lambda: vthr.PreviousGainThreshold(vthr.AbsoluteThreshold(1)),
+        lambda rng: call('evaluate', g_simple(rng), g_gains(rng)))
+    add('PropertyBracketer', lambda: vthr.PropertyBracketer('minority', {True: None}, default=vthr.AbsoluteThreshold(3)),
+        lambda rng: call('evaluate', _g_party_votes(rng, props=True)))
+    add('CoalitionMemberBracketer',
+        lambda: vthr.CoalitionMemberBracketer({1: vthr.RelativeThreshold(Fraction(1, 10)), 2: vthr.RelativeThreshold(Fraction(1, 5))},
+                                              vthr.RelativeThreshold(Fraction(3, 10))),
+        lambda rng: call('evaluate', _g_party_votes(rng, coal=True)))
+    add('ThresholdOpenList', lambda: vopen.ThresholdOpenList(jump_fraction=Fraction(1, 10)), _c_openlist)
+    add('ThresholdOpenList:quota', lambda: vopen.ThresholdOpenList(quota_function='hare', quota_fraction=Fraction(1, 4), accept_equal=True),
+        _c_openlist)
+    add('ListOrderTieBreaker', lambda: vopen.ListOrderTieBreaker(vcore.Plurality()), _c_openlist)
+    # --- approval / cardinal
+    add('ProportionalApproval', lambda: vapp.ProportionalApproval(), c_eval_approval_n, model='pav')
+    add('SequentialProportionalApproval', lambda: vapp.SequentialProportionalApproval(), c_eval_approval_n)
+    add('QuotaSelector', lambda: vapp.QuotaSelector(), c_eval_simple_n)
+    add('QuotaSelector:select', lambda: vapp.QuotaSelector('hare', on_more_over_quota='select'), c_eval_simple_n)
+    add('ScoreVoting', lambda: vcard.ScoreVoting(), c_eval_score_n)
+    add('ScoreVoting:sum', lambda: vcard.ScoreVoting('sum', unscored_value=0), c_eval_score_n)
+    add('MajorityJudgment', lambda: vcard.MajorityJudgment(), c_eval_mj)
+    add('STAR', lambda: vcard.STAR(), c_eval_score_n)
+    add('STAR:rp', lambda: vcard.STAR(runoff_evaluator='rankedpairs_winvotes'), c_eval_score_n)
+    add('AllocatedScoreDistributor', lambda: vcard.AllocatedScoreDistributor(), c_eval_score_dist)
+    add('AllocatedScoreSelector', lambda: vcard.AllocatedScoreSelector(), c_eval_score_n)
+    # --- condorcet
+    for nm, mk in [('CondorcetWinner', vcond.CondorcetWinner), ('SmithSet', vcond.SmithSet), ('SchwartzSet', vcond.SchwartzSet)]:
+        add(nm, mk, c_eval_condorcet)
+    for nm, mk in [('Copeland', vcond.Copeland), ('Copeland:first', lambda: vcond.Copeland(second_order=False)),
+                   ('KemenyYoung', vcond.KemenyYoung), ('MinimaxCondorcet', vcond.MinimaxCondorcet),
+                   ('MinimaxCondorcet:margins', lambda: vcond.MinimaxCondorcet('margins')),
+                   ('RankedPairs', vcond.RankedPairs), ('RankedPairs:margins', lambda: vcond.RankedPairs('margins')),
+                   ('Schulze', vcond.Schulze)]:
+        add(nm, mk, c_eval_condorcet_n)
+    # --- sequential
+    add('TransferableVoteSelector', lambda: vseq.TransferableVoteSelector(), c_eval_ranked_n)
+    add('TransferableVoteSelector:irv', lambda: vseq.TransferableVoteSelector(quota_function=None), c_eval_ranked_1)
+    add('TransferableVoteSelector:hare', lambda: vseq.TransferableVoteSelector(transferer=vtrans.Hare(seed=5), quota_function='droop'),
+        lambda rng: c_eval_ranked_n(rng, shared=rng.random() < 0.5), seed=5)
+    add('TransferableVoteSelector:hare_unseeded', lambda: vseq.TransferableVoteSelector(transferer='Hare'),
+        c_eval_ranked_noshared, random=True)
+    add('TransferableVoteDistributor', lambda: vseq.TransferableVoteDistributor(), c_eval_ranked_dist)
+    add('TransferableVoteDistributor:hare', lambda: vseq.TransferableVoteDistributor(transferer=vtrans.Hare(seed=3)),
+        c_eval_ranked_dist, seed=3)
+    add('TransferableVoteSelector.nth_count', lambda: vseq.TransferableVoteSelector(),
+        lambda rng: call('nth_count', g_ranked(rng, shared=False), g_seats(rng, 2), rng.randint(1, 3)))
+    add('TransferableVoteSelector.next_count', lambda: vseq.TransferableVoteSelector(), _c_next_count)
+    add('PreferenceAddition', lambda: vseq.PreferenceAddition(), c_eval_ranked_n)
+    add('PreferenceAddition:oklahoma', lambda: vseq.PreferenceAddition(lambda i: Fraction(1, i + 1)), c_eval_ranked_n)
+    add('TidemanAlternative', lambda: vseq.TidemanAlternative(), c_eval_ranked_1)
+    add('TidemanAlternative:schwartz', lambda: vseq.TidemanAlternative(vcond.SchwartzSet()), c_eval_ranked_1)
+    add('Benham', lambda: vseq.Benham(), c_eval_ranked_1)
+    add('Baldwin', lambda: vseq.Baldwin(), c_eval_ranked_noshared, state_ok=('converter.rank_scorer',))
+    # --- auxiliary
+    add('InputOrderSelector', lambda: vaux.InputOrderSelector(), c_eval_simple_sel)
+    add('CandidateNumberRanker', lambda: vaux.CandidateNumberRanker(),
+        lambda rng: call('evaluate', _g_person_votes(rng), g_seats(rng, 2)))
+    add('RFC3797Selector', lambda: vaux.RFC3797Selector([5, [3, 1, 2], 77]), c_eval_simple_sel)
+    add('Sortitor', lambda: vaux.Sortitor(seed=7), c_eval_simple_sel, seed=7)
+    add('Sortitor:seed8', lambda: vaux.Sortitor(seed=8), c_eval_simple_sel, seed=8)
+    add('Sortitor:unseeded', lambda: vaux.Sortitor(), c_eval_simple_sel, random=True)
+    add('RandomUnrankedBallotSelector', lambda: vaux.RandomUnrankedBallotSelector(seed=7), c_eval_simple_sel, seed=7)
+    add('RandomUnrankedBallotSelector:unseeded', lambda: vaux.RandomUnrankedBallotSelector(), c_eval_simple_sel, random=True)
+    # --- transferers
+    add('Gregory', lambda: vtrans.Gregory(), _c_transfer)
+    add('Hare', lambda: vtrans.Hare(seed=9), _c_transfer, seed=9)
+    add('Hare:unseeded', lambda: vtrans.Hare(), _c_transfer, random=True)
+    # --- converters
+    add('ApprovalToSimpleVotes', lambda: vconv.ApprovalToSimpleVotes(), c_conv(g_approval))
+    add('ApprovalToSimpleVotes:split', lambda: vconv.ApprovalToSimpleVotes(split=True), c_conv(g_approval))
+    add('ScoreToSimpleVotes', lambda: vconv.ScoreToSimpleVotes(), c_conv(g_score))
+    add('ScoreToSimpleVotes:median', lambda: vconv.ScoreToSimpleVotes('median', unscored_value=0), c_conv(g_score))
+    add('RankedToFirstPreference', lambda: vconv.RankedToFirstPreference(), c_conv(lambda r: g_ranked(r, shared=False)))
+    add('RankedToFirstNPreferences', lambda: vconv.RankedToFirstNPreferences(2), c_conv(lambda r: g_ranked(r, shared=False)))
+    add('RankedToPresenceCounts', lambda: vconv.RankedToPresenceCounts(), c_conv(g_ranked))
+    add('RankedToApprovalVotes', lambda: vconv.RankedToApprovalVotes(), c_conv(g_ranked))
+    add('RankedToPositionalVotes', lambda: vconv.RankedToPositionalVotes(vrs.Borda()), c_conv(g_ranked), model='borda',
+        base=1)
+    add('RankedToPositionalVotes:base0', lambda: vconv.RankedToPositionalVotes(vrs.Borda(base=0)), c_conv(g_ranked), model='borda',
+        base=0)
+    add('RankedToPositionalVotes:dowdall', lambda: vconv.RankedToPositionalVotes(vrs.Dowdall()), c_conv(g_ranked))
+    add('RankedToPositionalVotes:modborda', lambda: vconv.RankedToPositionalVotes(vrs.ModifiedBorda()), c_conv(g_ranked))
+    add('RankedToPositionalVotes:geometric', lambda: vconv.RankedToPositionalVotes(vrs.Geometric()), c_conv(g_ranked))
+    add('RankedToPositionalVotes:fixedtop', lambda: vconv.RankedToPositionalVotes(vrs.FixedTop(3)), c_conv(g_ranked))
+    add('RankedToPositionalVotes:seq', lambda: vconv.RankedToPositionalVotes(vrs.SequenceBased([5, 3, 1])), c_conv(g_ranked))
+    add('RankedToCondorcetVotes', lambda: vconv.RankedToCondorcetVotes(), c_conv(g_ranked))
+    add('RankedToCondorcetVotes:nobottom', lambda: vconv.RankedToCondorcetVotes(unranked_at_bottom=False), c_conv(g_ranked))
+    add('ScoreToRankedVotes', lambda: vconv.ScoreToRankedVotes(), c_conv(g_score))
+    add('ScoreToRankedVotes:unscored', lambda: vconv.ScoreToRankedVotes(unscored_value=0), c_conv(g_score))
+    add('ScoreToApprovalVotesThreshold', lambda: vconv.ScoreToApprovalVotesThreshold(2), c_conv(g_score))
+    add('InvertedSimpleVotes', lambda: vconv.InvertedSimpleVotes, c_conv(g_simple), cls=vconv.InvertedSimpleVotes, static=True)
+    add('InvertedApprovalVotes', lambda: vconv.InvertedApprovalVotes, c_conv(g_approval), cls=vconv.InvertedApprovalVotes, static=True)
+    add('IndividualToPartyVotes', lambda: vconv.IndividualToPartyVotes(), c_conv(_g_person_votes))
+    add('IndividualToPartyVotes:keep', lambda: vconv.IndividualToPartyVotes(vcand.IndividualToPartyMapper(independents='keep')),
+        c_conv(_g_person_votes))
+    add('IndividualToPartyResult', lambda: vconv.IndividualToPartyResult(), c_conv(_g_person_selection))
+    add('GroupVotesByParty', lambda: vconv.GroupVotesByParty(), c_conv(_g_person_votes))
+    add('SelectionToDistribution', lambda: vconv.SelectionToDistribution(), c_conv(g_selection))
+    add('MergedSelections', lambda: vconv.MergedSelections(),
+        c_conv(lambda r: D([(d, g_selection(r)) for d in DN[:r.randint(1, 3)]]) if r.random() < 0.5
+               else L([g_selection(r) for _ in range(r.randint(1, 3))])))
+    add('MergedDistributions', lambda: vconv.MergedDistributions(),
+        c_conv(lambda r: D([(d, g_gains(r)) for d in DN[:r.randint(1, 3)]]) if r.random() < 0.5
+               else L([g_gains(r) for _ in range(r.randint(1, 3))])))
+    add('VoteTotals', lambda: vconv.VoteTotals(), c_conv(lambda r: g_const(r, g_simple)))
+    add('ConstituencyTotals', lambda: vconv.ConstituencyTotals(), c_conv(lambda r: g_const(r, g_simple)))
+    add('PartyTotals', lambda: vconv.PartyTotals(), c_conv(lambda r: g_const(r, g_simple)))
+    add('convert.ByConstituency', lambda: vconv.ByConstituency(vconv.RankedToFirstPreference()),
+        c_conv(lambda r: g_const(r, lambda q: g_ranked(q, shared=False))))
+    add('convert.ByConstituency:borda', lambda: vconv.ByConstituency(vconv.RankedToPositionalVotes(vrs.Borda())),
+        c_conv(lambda r: g_const(r, g_ranked)), state_ok=('converter.rank_scorer',))
+    add('InvalidVoteEliminator', lambda: vconv.InvalidVoteEliminator(vvote.RankedVoteValidator()),
+        c_conv(lambda r: g_ranked(r)))
+    add('InvalidVoteEliminator:approval', lambda: vconv.InvalidVoteEliminator(vvote.ApprovalVoteValidator((1, 2))),
+        c_conv(g_approval))
+    add('RoundedVotes', lambda: vconv.RoundedVotes(0), c_conv(lambda r: g_simple(r)))
+    add('SubsettedVotes', lambda: vconv.SubsettedVotes(), lambda rng: call('convert', g_simple(rng), g_selection(rng)))
+    add('SubsettedVotes:ranked', lambda: vconv.SubsettedVotes(vvote.RankedSubsetter()),
+        lambda rng: call('convert', g_ranked(rng), g_selection(rng)))
+    add('SubsettedVotes:approval', lambda: vconv.SubsettedVotes(vvote.ApprovalSubsetter()),
+        lambda rng: call('convert', g_approval(rng), g_selection(rng)))
+    add('SubsettedVotes:score', lambda: vconv.SubsettedVotes(vvote.ScoreSubsetter()),
+        lambda rng: call('convert', g_score(rng), g_selection(rng)))
+    add('SubsettedVotes:depth1', lambda: vconv.SubsettedVotes(depth=1),
+        lambda rng: call('convert', g_const(rng, g_simple), g_selection(rng)))
+    add('Chain', lambda: vconv.Chain([vconv.RankedToApprovalVotes(), vconv.ApprovalToSimpleVotes()]), c_conv(g_ranked))
+    add('Chain:borda', lambda: vconv.Chain([vconv.RankedToPositionalVotes(vrs.Borda()), vconv.InvertedSimpleVotes()]),
+        c_conv(lambda r: g_ranked(r, shared=False)), state_ok=('converters.0.rank_scorer',))
+    # --- subsetters, validators, nominators
+    add('SimpleSubsetter', lambda: vvote.SimpleSubsetter(), lambda rng: call('subset', rng.choice(CN), g_selection(rng)))
+    add('RankedSubsetter', lambda: vvote.RankedSubsetter(), lambda rng: call('subset', g_ranking(rng, CN[:4]), g_selection(rng)))
+    add('ApprovalSubsetter', lambda: vvote.ApprovalSubsetter(), lambda rng: call('subset', S(rng.sample(CN, 3)), g_selection(rng)))
+    add('ScoreSubsetter', lambda: vvote.ScoreSubsetter(),
+        lambda rng: call('subset', S([T([c, rng.randint(0, 5)]) for c in rng.sample(CN, 3)]), g_selection(rng)))
+    add('SimpleVoteValidator', lambda: vvote.SimpleVoteValidator(), lambda rng: call('validate', rng.choice(CN + [S(['c0'])])))
+    add('ApprovalVoteValidator', lambda: vvote.ApprovalVoteValidator((1, 2)),
+        lambda rng: call('validate', S(rng.sample(CN, rng.randint(0, 3)))))
+    add('RankedVoteValidator', lambda: vvote.RankedVoteValidator((1, 3)), lambda rng: call('validate', g_ranking(rng, CN[:4])))
+    add('RankedVoteValidator:perrank', lambda: vvote.RankedVoteValidator(rank_vote_count_bounds={0: (1, 1), 1: (1, 2)}),
+        lambda rng: call('validate', g_ranking(rng, CN[:4])))
+    add('ScoreVoteValidator', lambda: vvote.ScoreVoteValidator((1, 3), (0, 9)), _c_validate_score)
+    add('RangeVoteValidator', lambda: vvote.RangeVoteValidator((0, 4), (1, 3)), _c_validate_score)
+    add('EnumScoreVoteValidator', lambda: vvote.EnumScoreVoteValidator([0, 1, 2, 3]), _c_validate_score)
+    add('BasicNominator', lambda: vcand.BasicNominator(), _c_nominate)
+    add('PartyNominator', lambda: vcand.PartyNominator(), _c_nominate)
+    add('PersonNominator', lambda: vcand.PersonNominator(), _c_nominate)
+    # --- module-level singletons (shared object = the module's; fresh = a new instance of the same configuration)
+    for key, obj in vcond.EVALUATORS.items():
+        cfg = {'rankedpairs_winvotes': vcond.RankedPairs, 'rankedpairs_margins': lambda: vcond.RankedPairs('margins'),
+               'minimax_winvotes': vcond.MinimaxCondorcet, 'minimax_margins': lambda: vcond.MinimaxCondorcet('margins'),
+               'minimax_pwo': lambda: vcond.MinimaxCondorcet('pairwise_opposition')}.get(key) or type(obj)
+        add(f'singleton:condorcet.EVALUATORS[{key}]', cfg,
+            c_eval_condorcet_n if accepts_n(obj) else c_eval_condorcet, shared=(lambda o=obj: o), singleton=True)
+    add('singleton:sequential.DEFAULT_TRANSFERER', lambda: vtrans.Gregory(), _c_transfer,
+        shared=lambda: vseq.DEFAULT_TRANSFERER, singleton=True)
+    add('singleton:sequential.RANKED_SUBSETTER', lambda: vconv.SubsettedVotes(vvote.RankedSubsetter()),
+        lambda rng: call('convert', g_ranked(rng), g_selection(rng)), shared=lambda: vseq.RANKED_SUBSETTER, singleton=True)
+    add('singleton:sequential.RANKED_TO_CONDORCET', lambda: vconv.RankedToCondorcetVotes(), c_conv(g_ranked),
+        shared=lambda: vseq.RANKED_TO_CONDORCET, singleton=True)
+    add('singleton:core.DEFAULT_SUBSETTER', lambda: vvote.SimpleSubsetter(),
+        lambda rng: call('subset', rng.choice(CN), g_selection(rng)), shared=lambda: vcore.DEFAULT_SUBSETTER, singleton=True)
+    add('singleton:Benham.CONDO', lambda: vcond.CondorcetWinner(), c_eval_condorcet, shared=lambda: vseq.Benham.CONDO, singleton=True)
+    add('singleton:vote.DEFAULT_NOMINATOR', lambda: vcand.BasicNominator(), _c_nominate,
+        shared=lambda: vvote.DEFAULT_NOMINATOR, singleton=True)
+    add('singleton:convert.DEFAULT_MAPPER', lambda: vconv.IndividualToPartyVotes(vcand.IndividualToPartyMapper()),
+        c_conv(_g_person_votes), shared=lambda: vconv.IndividualToPartyVotes(vconv.DEFAULT_MAPPER), singleton=True)
+    add('singleton:TidemanAlternative.default_set_selector', lambda: vcond.SmithSet(), c_eval_condorcet,
+        shared=lambda: inspect.signature(vseq.TidemanAlternative.__init__).parameters['set_selector'].default, singleton=True)
+    return Tt
+
+
+def accepts_n(obj):
+    return 'n_seats' in inspect.signature(obj.evaluate).parameters
